@@ -43,8 +43,10 @@ type vc16ErrColl struct{}
 func (vc16ErrColl) Collect(_ context.Context, _ error) {}
 
 // vc16Meta is the metadata of one Record call.  N is the global sequence
-// number of the call; Time is strictly increasing in N, so "most recent
-// query" is unambiguous (call order and timestamp order agree).
+// number of the call.  Time is the query's start time and is drawn
+// independently of N: "most recent query" is the most recently RECORDED one
+// (Record is called at the end of processing with the time the query arrived),
+// which is what the unchanged Record and remergeRecords implement.
 type vc16Meta struct {
 	N     int
 	Time  time.Time
@@ -88,6 +90,10 @@ type vc16Rec struct {
 	Ctry  geoip.Country
 	ASN   geoip.ASN
 	Proto agd.Protocol
+
+	// T is the query's start time in seconds after vc16Base, drawn
+	// independently of the recording order (earlier, equal, later).
+	T int
 
 	// Near is the near-miss mode.
 	Near int
@@ -494,7 +500,9 @@ func (x *vc16Run) record(rc *vc16Rec) {
 		x.classes[class] = true
 	}
 
-	m := vc16Meta{N: x.n, Time: vc16Base.Add(time.Duration(x.n) * time.Second), Ctry: ctry, ASN: asn, Proto: proto}
+	// The start time is NOT monotone in recording order: Record is called
+	// when a query has been processed, with the time it arrived.
+	m := vc16Meta{N: x.n, Time: vc16Base.Add(time.Duration(rc.T) * time.Second), Ctry: ctry, ASN: asn, Proto: proto}
 	x.events = append(x.events, vc16Event{kind: 'r', depth: len(x.inflight), dev: d, meta: m, fail: rc.DoneCtx})
 
 	ctx := x.ctx
@@ -518,6 +526,15 @@ func (x *vc16Run) record(rc *vc16Rec) {
 		if fl.snap[d].Queries > 0 {
 			fl.recDuring[d] = true
 			if fl.fail {
+				switch held := fl.snap[d].Time; {
+				case m.Time.Before(held):
+					x.classes["recorded-during-failed-upload-with-earlier-start-time"] = true
+				case m.Time.Equal(held):
+					x.classes["recorded-during-failed-upload-with-equal-start-time"] = true
+				default:
+					x.classes["recorded-during-failed-upload-with-later-start-time"] = true
+				}
+
 				x.classes["record-during-failed-upload"] = true
 			} else {
 				x.classes["record-during-successful-upload"] = true
@@ -763,12 +780,17 @@ var vc16Patterns = func() (ps [][]bool) {
 	return ps
 }()
 
+// vc16Times are the start times to draw from, in no particular order (rapid
+// favours the first elements).
+var vc16Times = []int{6, 2, 9, 6, 0, 12, 4, 7, 1, 10, 3, 5, 8, 11}
+
 func vc16DrawRec(t *rapid.T, nDev int) (rc vc16Rec) {
 	return vc16Rec{
 		Dev:     rapid.IntRange(0, nDev-1).Draw(t, "dev"),
 		Ctry:    rapid.SampledFrom(vc16Ctrys).Draw(t, "ctry"),
 		ASN:     geoip.ASN(rapid.OneOf(rapid.SampledFrom([]uint32{0, 1, 42, 65535, 4294967295}), rapid.Uint32()).Draw(t, "asn")),
 		Proto:   rapid.SampledFrom(vc16Protos).Draw(t, "proto"),
+		T:       rapid.SampledFrom(vc16Times).Draw(t, "startTime"),
 		Near:    rapid.SampledFrom([]int{vc16NearNone, vc16NearNone, vc16NearCtry, vc16NearASN, vc16NearProto, vc16NearUnknown, vc16NearNone}).Draw(t, "near"),
 		DoneCtx: rapid.IntRange(0, 5).Draw(t, "recDoneCtx") == 3,
 	}
@@ -801,7 +823,8 @@ func TestVerifC16History(t *testing.T) {
 		"fail-then-record-then-success", "record-during-failed-upload", "remerge-into-newer-record",
 		"remerge-restores-record", "remerge-mixed", "fail-streak>=2", "record-during-successful-upload", "overlapping-refresh",
 		"refresh-with-done-context-nonempty", "refresh-with-cancelled-context-nonempty", "refresh-with-expired-context-nonempty", "cancelled-in-flight-nonempty",
-		"near-miss-one-field", "unknown-location-after-known", "known-location-after-unknown", "record-with-done-context")
+		"near-miss-one-field", "unknown-location-after-known", "known-location-after-unknown", "record-with-done-context",
+		"recorded-during-failed-upload-with-earlier-start-time", "recorded-during-failed-upload-with-equal-start-time", "recorded-during-failed-upload-with-later-start-time")
 	st.Finish(t)
 
 	seenPat := map[int]struct{}{}
@@ -881,6 +904,9 @@ func vc16DetRec(dev, k int) (rc vc16Rec) {
 	return vc16Rec{
 		Dev: dev, Ctry: vc16Ctrys[k%len(vc16Ctrys)], ASN: geoip.ASN(1000 + k*7), Proto: vc16Protos[(k/2)%len(vc16Protos)],
 		Near: (k + k/5) % 5, DoneCtx: k%7 == 3,
+		// 5, 3, 1, 6, 4, 2, 0, 5, ... with every third one repeating its
+		// predecessor: earlier, later and equal start times all occur.
+		T: (5*(k-k%3/2) + 5) % 7,
 	}
 }
 
@@ -951,7 +977,8 @@ func TestVerifC16Patterns(t *testing.T) {
 		"fail-then-record-then-success", "record-during-failed-upload", "remerge-into-newer-record",
 		"remerge-restores-record", "remerge-mixed", "fail-streak>=3", "patlen-6",
 		"refresh-with-done-context-nonempty", "refresh-with-cancelled-context-nonempty", "refresh-with-expired-context-nonempty", "cancelled-in-flight-nonempty",
-		"near-miss-one-field", "unknown-location-after-known", "known-location-after-unknown", "record-with-done-context")
+		"near-miss-one-field", "unknown-location-after-known", "known-location-after-unknown", "record-with-done-context",
+		"recorded-during-failed-upload-with-earlier-start-time", "recorded-during-failed-upload-with-equal-start-time", "recorded-during-failed-upload-with-later-start-time")
 	st.Finish(t)
 
 	// Slot sets: full (24 per round), mid (12 per round), small (6 per round).
